@@ -383,6 +383,36 @@ def replay_concrete(shape, pi, global_repo, with_builtin, nm):
         shutil.rmtree(tmp, ignore_errors=True)
 
 
+def plain_repeated_load(global_repo):
+    """a metamodel whose providers load no models (default provider): with a
+    global repository a repeated load of the same file still returns the cached
+    model and a different file a different one; without, every load is new"""
+    from textx import metamodel_from_str
+    import shutil
+    tmp = tempfile.mkdtemp(prefix='c17p_')
+    problems = []
+    try:
+        for fn in ('one.m', 'two.m'):
+            with open(os.path.join(tmp, fn), 'w') as f:
+                f.write('item a\nitem b\nuse a')
+        mm = metamodel_from_str(GRAMMAR, global_repository=global_repo)
+        m1 = mm.model_from_file(os.path.join(tmp, 'one.m'))
+        m2 = mm.model_from_file(os.path.join(tmp, 'one.m'))
+        m3 = mm.model_from_file(os.path.join(tmp, 'two.m'))
+        if global_repo and m2 is not m1:
+            problems.append('global repository, default provider: the second load of one.m returned a new model')
+        if not global_repo and m2 is m1:
+            problems.append('no global repository: the second load returned the first model')
+        if m3 is m1 or m3 is m2:
+            problems.append('loading two.m returned the model of one.m')
+        for m in (m1, m2, m3):
+            if m.uses[0].ref is not m.items[0]:
+                problems.append('reference does not point into its own model')
+        return problems
+    finally:
+        shutil.rmtree(tmp, ignore_errors=True)
+
+
 def main():
     import textx.scoping as S
     import textx.scoping.providers as P
@@ -453,6 +483,10 @@ def main():
         chk.sample({'shape': r['shape'], 'provider': r['provider'], 'global_repository': r['global_repo'],
                     'builtin_model': r['builtin'], 'equality_patterns': r['paths'], 'loaded': r['ok'],
                     'failed_as_prescribed': r['ok_error']})
+    for gr in (False, True):
+        for pr in plain_repeated_load(gr):
+            chk.violation(pr, {'plain_repeated_load': gr})
+    chk.cov['bounds']['plain_repeated_load'] = 'default provider (no model loader), global repository on/off: concrete'
     if chk.cov['model_mismatches']:
         chk.harness_error('a symbolic counterexample did not reproduce with concrete names')
     chk.cov['paths_explored'] = paths
@@ -465,6 +499,9 @@ def main():
 
 
 def replay(data):
+    if 'plain_repeated_load' in data:
+        pr = plain_repeated_load(data['plain_repeated_load'])
+        return bool(pr), pr
     SHAPES.update(THOROUGH_SHAPES)
     if data.get('naming'):
         return replay_concrete(data['shape'], data['provider'], data['global_repo'], data['builtin'], data['naming'])
